@@ -330,8 +330,22 @@ func TestVF_C01(t *testing.T) {
 				continue
 			}
 			p := copyProofD(honest)
-			ok1 := alts[x].f(p)
-			ok2 := alts[y].f(p)
+			var ok1, ok2 bool
+			// the second alteration may not be applicable to what the first left (a field it
+			// edits was removed): such a pair is skipped, it is not a presented proof
+			if func() (inapplicable bool) {
+				defer func() {
+					if recover() != nil {
+						inapplicable = true
+					}
+				}()
+				ok1 = alts[x].f(p)
+				ok2 = alts[y].f(p)
+				return false
+			}() {
+				rec.Class("F1-pair-inapplicable", 1)
+				continue
+			}
 			if (!ok1 && !ok2) || sameProofD(p, honest) {
 				continue // e.g. C+1 followed by C-1: not an alteration
 			}
